@@ -34,6 +34,8 @@ import AutosarVerif.Lemmas.MoveOpPos
 import AutosarVerif.Lemmas.MoveOpWitness
 import AutosarVerif.Lemmas.StepY
 import AutosarVerif.Lemmas.MoveCopyInv
+import AutosarVerif.Lemmas.MoveFull
+import AutosarVerif.Lemmas.StepZ
 
 namespace AV.C06
 open AV.W
@@ -124,5 +126,19 @@ theorem C06_move_follows_in_every_reachable_state : type_of% @AV.W.reachY_move_r
 
 /-- `theorem opMove_ginv (hH : IdxHyp S V vOk) (hR : RefWF S) (hv32 : vOk &&& 0xFFFFFFFF = vOk) (w : World) (p x : Nat) (pos? : Option Nat) (hg : GInv S vOk w) (hgd : MoveGuard S w p x) : GInv S vOk (opMove S V w p x pos?).1` -/
 theorem C06_guarded_move_keeps_all_invariants : type_of% @AV.W.opMove_ginv := @AV.W.opMove_ginv
+
+
+/-! ### added later in the third session (loads, cross-model moves, merge order): restated by name
+(`type_of%` keeps the statement identical to the lemma; the signature is quoted in the comment) -/
+
+/-- **last sentence of the property**: after a guarded move of a named element to ANOTHER model, every reference inside the moved subtree whose text resolved (in the source index) to an element of the subtree has the re-prefixed text, is registered in the destination and resolves there to the same element
+`theorem opMoveAny_c06 (hH : IdxHyp S V vOk) (hR : RefWF S) (hv32 : vOk &&& 0xFFFFFFFF = vOk) (w : World) (p x : Nat) (pos? : Option Nat) (hg : GInv S vOk w) (hs : SepInv w) (hgf : MoveFullGuard S w x) (hun : (opMove S V w p x pos?).2 = .unsupported) (hok : (opMoveAny S V w p x pos?).2 ≠ .err) : ∃ kx cx kp cp orig dest, locate w x = some (kx, cx) ∧ locate w p = some (kp, cp) ∧ kx ≠ kp ∧ itemName S (lastOf cx).1 (lastOf cx).2 = some orig ∧ dest = pathOfChain S cp ++ 47 :: (uniqueName (w.models[kp]!).index (pathOfChain S cp) orig ((w.models[kp]!).index.length + 2) 0).1 ∧ ∀ t r e, (t, r) ∈ refEntries S (.elem (lastOf cx).1 (lastOf cx).2 .nil) → idxGet (w.models[kx]!).index t = some e → e ∈ (Items.elem (lastOf cx).1 (lastOf cx).2 .nil).ids → (dest ++ t.drop (pathOfChain S cx).length, r) ∈ refEntries S ((opMoveAny S V w p x pos?).1.models[kp]!).rootItems ∧ idxGet ((opMoveAny S V w p x pos?).1.models[kp]!).index (dest ++ t.drop (pathOfChain S cx).length) = some e` -/
+theorem C06_cross_model_move_inner_references_follow : type_of% @AV.W.opMoveAny_c06 := @AV.W.opMoveAny_c06
+
+/-- `theorem reachZ_moveFull_c06 (hH : IdxHyp S V vOk) (hR : RefWF S) (hv32 : vOk &&& 0xFFFFFFFF = vOk) {w : World} (hreach : ReachZ S V vOk rootAttrs w) (p x : Nat) (pos? : Option Nat) (hgf : MoveFullGuard S w x) (hun : (opMove S V w p x pos?).2 = .unsupported) (hok : (opMoveAny S V w p x pos?).2 ≠ .err) : ∃ kx cx kp cp orig dest, locate w x = some (kx, cx) ∧ locate w p = some (kp, cp) ∧ kx ≠ kp ∧ itemName S (lastOf cx).1 (lastOf cx).2 = some orig ∧ dest = pathOfChain S cp ++ 47 :: (uniqueName (w.models[kp]!).index (pathOfChain S cp) orig ((w.models[kp]!).index.length + 2) 0).1 ∧ ∀ t r e, (t, r) ∈ refEntries S (.elem (lastOf cx).1 (lastOf cx).2 .nil) → idxGet (w.models[kx]!).index t = some e → e ∈ (Items.elem (lastOf cx).1 (lastOf cx).2 .nil).ids → (dest ++ t.drop (pathOfChain S cx).length, r) ∈ refEntries S ((opMoveAny S V w p x pos?).1.models[kp]!).rootItems ∧ idxGet ((opMoveAny S V w p x pos?).1.models[kp]!).index (dest ++ t.drop (pathOfChain S cx).length) = some e` -/
+theorem C06_cross_model_move_in_every_reachable_state : type_of% @AV.W.reachZ_moveFull_c06 := @AV.W.reachZ_moveFull_c06
+
+/-- `theorem opMoveAny_ginv_sep (hH : IdxHyp S V vOk) (hR : RefWF S) (hv32 : vOk &&& 0xFFFFFFFF = vOk) (w : World) (p x : Nat) (pos? : Option Nat) (hg : GInv S vOk w) (hs : SepInv w) (hgd : MoveGuard S w p x) (hgf : MoveFullGuard S w x) : GInv S vOk (opMoveAny S V w p x pos?).1 ∧ SepInv (opMoveAny S V w p x pos?).1` -/
+theorem C06_guarded_move_any_keeps_all_invariants : type_of% @AV.W.opMoveAny_ginv_sep := @AV.W.opMoveAny_ginv_sep
 
 end AV.C06
